@@ -38,14 +38,22 @@ def contRoot (fuel : Nat) (w : World) (c : Cont) : String :=
   | .map _ => "?multi-slab-inlined"
 end
 
-/-- all stand-alone slabs of a container (id ↦ dump), pre-order -/
+/-- all stand-alone slabs of a container (id ↦ dump), pre-order.  An INLINED map has no slab of its
+    own but still owns the external collision-group slabs of its elements (audit a5, F1); the
+    containers nested in it are listed by their own entries of `World.conts`. -/
 def contSlabs (w : World) (c : Cont) : List (SlabID × String) :=
   let re := elemW (w.conts.length + 2) w
   match c with
   | .arr a =>
     if a.isInlined then [] else
     (ATree.slabIds a.d a.root).zip (Dump.treeR re a.ty a.d a.root)
-  | .map m => if m.isInlined then [] else Dump.mtreeR re m m.d m.root
+  | .map m =>
+    if m.isInlined then
+      match m with
+      | ⟨0, (s : MDataSlab 3), ty, cnt, seed⟩ =>
+        (Dump.mdataSlabR re (⟨0, s, ty, cnt, seed⟩ : OMap 3) s).2
+      | _ => []
+    else Dump.mtreeR re m m.d m.root
 
 end WDump
 
